@@ -644,7 +644,7 @@ class RedlineEngine:
         # ---------------------------------
 
         effective_new_text = edit.new_text or ""
-        actual_doc_text = self.mapper.full_text[start_idx : start_idx + match_len]
+        actual_doc_text = active_mapper.full_text[start_idx : start_idx + match_len]
 
         if actual_doc_text == effective_new_text:
             return True
@@ -699,7 +699,7 @@ class RedlineEngine:
         logger.debug(f"Applying Edit at [{start_idx}:{start_idx + length}] Op={op}")
 
         if length > 0:
-            context_span = self.mapper.get_context_at_range(start_idx, start_idx + length)
+            context_span = active_mapper.get_context_at_range(start_idx, start_idx + length)
             if context_span and context_span.ins_id:
                 logger.info(f"Detected edit inside Insertion ID={context_span.ins_id}. Converting to Replace.")
                 ins_id = context_span.ins_id
@@ -729,7 +729,7 @@ class RedlineEngine:
                 return True
 
         if op == EditOperationType.INSERTION:
-            anchor_run = self.mapper.get_insertion_anchor(start_idx)
+            anchor_run = active_mapper.get_insertion_anchor(start_idx)
             if not anchor_run:
                 return False
 
